@@ -148,12 +148,17 @@ def _run(pid, binp, inp, out, par, budget):
 def _report(pid, v, r, wd, tag):
     mine = CLASSES.get(pid, ())
     n = 0
+    seen = set()
     for m in r["mismatches"]:
         cls = m.get("class", "")
         if cls == "harness":
             raise vlib.Inconclusive("real-peer harness: %s" % m["what"])
         if cls not in mine:
             continue        # the other property's clause: reported when that property runs
+        if m["case"] in seen or len(seen) >= 8:
+            n += 1          # counted; one report per schedule, at most 8 reports per run
+            continue
+        seen.add(m["case"])
         rp = os.path.join(wd, "%s_case_%d_%d.json" % (tag, m["case"], m["step"]))
         if m.get("replay") is not None:
             json.dump(m["replay"], open(rp, "w"))
